@@ -672,6 +672,17 @@ def shim(names):
                             return None
                 return orig_store(cls, wcls, canvas)
             patch(CanvasCache, "store", classmethod(store))
+        if "rows-cache-off" in names:
+            # not a repair: rows() never answered from cached canvases; used to recognise differences that exist only
+            # because some widget's rows() disagrees with its own render().rows() (property C11)
+            import sys as _sys
+            orig_fetch = CanvasCache.__dict__["fetch"].__func__
+
+            def fetch(cls, widget, wcls, size, focus):
+                if _sys._getframe(1).f_code.co_name == "cached_rows":
+                    return None
+                return orig_fetch(cls, widget, wcls, size, focus)
+            patch(CanvasCache, "fetch", classmethod(fetch))
         if "pile-hidden-child" in names:
             pile_fn = urwid.Pile.render.original_fn
 
@@ -812,10 +823,27 @@ def run_real(case):
                 CanvasCache.clear()
             outs.append(o)
         frozen = [i for i, (c, d) in enumerate(snaps) if content_of(c) != d]
+        c11 = []
+        if case.get("probe_c11"):
+            # widgets whose rows() disagrees with their own canvas, no cache involved
+            for w in walk(top):
+                if "flow" not in w.sizing():
+                    continue
+                for mc in SIZES:
+                    for fo in (False, True):
+                        try:
+                            CanvasCache.clear()
+                            r = w.rows((mc,), fo)
+                            CanvasCache.clear()
+                            if r != w.render((mc,), fo).rows():
+                                c11.append(type(w).__name__)
+                        except Exception:       # noqa: BLE001
+                            pass
+            c11 = sorted(set(c11))
     finally:
         del keep, snaps
         CanvasCache.clear()
-    return {"outs": outs, "frozen": frozen}
+    return {"outs": outs, "frozen": frozen, "c11": c11} if case.get("probe_c11") else {"outs": outs, "frozen": frozen}
 
 
 def summarize(d):
@@ -1273,6 +1301,16 @@ class C06(core.Check):
                     return "root cause: " + "+".join(names)
             except Exception:       # noqa: BLE001
                 continue
+        # not the cache's doing: some widget's rows() disagrees with its own render().rows() without any cache (C11), and
+        # the difference vanishes as soon as rows() is no longer answered from cached canvases
+        if case.get("kind") != "bk":
+            try:
+                with shim(["rows-cache-off"]):
+                    res = run_real(dict(case, probe_c11=True))
+                if res.get("c11") and not judge(case, res):
+                    return "root cause: rows-render-mismatch(C11) of " + "+".join(res["c11"])
+            except Exception:       # noqa: BLE001
+                pass
         return "root cause: unexplained"
 
     def nontrivial(self, case, res):
